@@ -226,3 +226,108 @@ package dagsync
 //@   ensures-local result1 == nil && count("call:handle") == 1 ==> count("call:updatePeerstore") == 1 && (count("call:sendSyncFinishedEvent") == 1 <==> headQueried) && before("call:handle", "call:updatePeerstore")
 //@   ensures-local count("call:sendSyncFinishedEvent") == 1 ==> before("call:handle", "call:sendSyncFinishedEvent") && before("call:updatePeerstore", "call:sendSyncFinishedEvent")
 //@   at call sendSyncFinishedEvent#1: assert arg1 == nextCid && arg2 == syncCount
+
+// ---------------------------------------------------------------------------
+// Announce-triggered syncs (C04, C08, C01)
+
+// asyncSyncAdChain: the pending announcement is taken at most once, before any sync, and the CID
+// synced is the one taken; the stop link is the latest synced link and the depth is the first-sync
+// depth only when there is none. On failure: exactly one error notification carrying the announced
+// CID and this publisher, the CID is un-cached once so that it may be announced again, and no latest
+// sync is recorded; on success exactly one success notification after the peer store was updated.
+//@ func (*handler).asyncSyncAdChain
+//@   property C04 C08 C01 C14
+//@   requires h != nil && subOK(h.subscriber) && ctx != nil && !held(h.syncMutex) && !held(h.subscriber.scopedBlockHookMutex) && !closed(h.subscriber.inEvents)
+//@   requires h.subscriber.receiver != nil ==> !held(h.subscriber.receiver.announceMutex)
+//@   assumes str(cid.Undef.str) == str("")
+//@   mayblock send:inEvents
+//@   ghost taken := zero("*announce.Announce")
+//@   ghost latest := zero("ipld.Link")
+//@   ghost rlFirst := zero("selector.RecursionLimit")
+//@   ghost selBuilt := zero("ipld.Node")
+//@   at call Swap#1: assert arg1 == nil && count("call:handle") == 0
+//@   at call Swap#1: after ghost taken := result
+//@   at call Swap#1: after assume result != nil
+//@   at call GetLatestSync#1: assert arg1 == h.peerID
+//@   at call GetLatestSync#1: after ghost latest := result
+//@   at call GetLatestSync#1: after assume result != nil ==> typeis(result, "cidlink.Link")
+//@   at call recursionLimit#1: assert arg0 == h.subscriber.firstSyncDepth
+//@   at call recursionLimit#1: after ghost rlFirst := result
+//@   at call ExploreRecursiveWithStopNode#1: assert arg0 == ite(latest == nil && h.subscriber.firstSyncDepth != 0, rlFirst, h.subscriber.adsDepthLimit) && arg1 == h.subscriber.adsSelectorSeq && arg2 == latest
+//@   at call ExploreRecursiveWithStopNode#1: after ghost selBuilt := result
+//@   at call handle#1: assert arg2 == taken.Cid && arg3 == selBuilt && arg6 == h.subscriber.segDepthLimit
+//@   at call handle#1: assert ite(latest != nil, str(arg7.str) == payload(latest) && arg7 != taken.Cid, str(arg7.str) == str(""))
+//@   at call UncacheCid#1: assert arg1 == taken.Cid
+//@   at call sendSyncFinishedEvent#1: assert arg1 == taken.Cid && arg2 == syncCount
+//@   ghost failed := false
+//@   at call handle#1: after ghost failed := result1 != nil
+//@   ensures-local count("atomic.swap:pendingMsg") <= 1 && count("call:handle") <= 1
+//@   ensures-local count("call:handle") == 1 && failed ==> count("send:inEvents") == 1 && count("call:sendSyncFinishedEvent") == 0 && count("call:updatePeerstore") == 0
+//@   ensures-local count("call:handle") == 1 && failed ==> evarg("send:inEvents", 1) == str(taken.Cid.str) && evarg("send:inEvents", 2) == str(h.peerID) && evarg("send:inEvents", 4) != 0
+//@   ensures-local count("call:handle") == 1 && failed && h.subscriber.receiver != nil ==> count("call:UncacheCid") == 1
+//@   ensures-local count("call:handle") == 1 && !failed ==> count("call:sendSyncFinishedEvent") == 1 && count("send:inEvents") == 0 && count("call:UncacheCid") == 0 && before("call:updatePeerstore", "call:sendSyncFinishedEvent")
+//@   ensures-local count("call:handle") == 0 ==> count("send:inEvents") == 0 && count("call:sendSyncFinishedEvent") == 0
+
+// The goroutine started for an announcement: the per-publisher async mutex is held from before the
+// pending announcement is taken until the sync has ended; if there is a concurrency limit, either a
+// slot was acquired (and is given back) or the context was already cancelled; the wait group is
+// released on every path.
+//@ func (*Subscriber).watch$1
+//@   property C08 C15
+//@   requires hnd != nil && subOK(s) && hnd.subscriber == s && ctx != nil && !held(hnd.asyncMutex) && !held(hnd.syncMutex) && !held(s.scopedBlockHookMutex) && !closed(s.inEvents)
+//@   requires s.receiver != nil ==> !held(s.receiver.announceMutex)
+//@   requires s.syncSem != nil ==> !closed(s.syncSem)
+//@   mayblock
+//@   at call asyncSyncAdChain#1: assert held(hnd.asyncMutex)
+//@   ensures-local count("call:asyncSyncAdChain") == 1 && count("wg.done:asyncWG") == 1 && before("call:asyncSyncAdChain", "wg.done:asyncWG")
+//@   ensures-local before("lock:asyncMutex", "call:asyncSyncAdChain")
+//@   ensures-local count("send:syncSem") == count("recv:syncSem")
+
+// The announcement loop: a new goroutine is started exactly when the publisher's pending slot was
+// empty, and it is counted in asyncWG before it starts; the slot then holds the newest announcement.
+//@ func (*Subscriber).watch
+//@   property C08 C15
+//@   requires subOK(s) && s.receiver != nil && s.watchDone != nil && !closed(s.watchDone) && !held(s.handlersMutex) && !held(s.receiver.announceMutex)
+//@   mayblock
+//@   ghost old0 := zero("*announce.Announce")
+//@   loop 1: invariant subOK(s) && s.receiver != nil && !held(s.handlersMutex) && !closed(s.watchDone) && cancel != nil
+//@   loop 1: iteration ghost spawned := false
+//@   at call Swap#1: after ghost old0 := result
+//@   loop 1: iteration ensures itercount("go:watch$1") == ite(old0 == nil, 1, 0) && itercount("wg.add:asyncWG") == itercount("go:watch$1")
+//@   ensures-local count("close:watchDone") == 1
+
+// The cancel function of a listener: idempotent, and never blocks once the subscriber is closing.
+//@ func (*Subscriber).OnSyncFinished$1
+//@   property C14 C15
+//@   requires s != nil && s.rmEventChan != nil && s.closing != nil && !closed(s.rmEventChan)
+//@   shutdown closing
+//@   ensures-local old(ch) == nil ==> count("select{send:rmEventChan,recv:closing}") == 0
+//@   ensures ch == nil
+
+// Entries syncs follow the same shutdown protocol as SyncAdChain (C15) and fail without side effects (C04).
+//@ func (*Subscriber).syncEntries
+//@   property C15 C04 C01
+//@   requires subOK(s) && ctx != nil && !held(s.expSyncMutex) && !held(s.handlersMutex) && !held(s.scopedBlockHookMutex)
+//@   assumes str(cid.Undef.str) == str("")
+//@   at call handle#1: assert arg2 == entCid && arg3 == sel && arg5 == bh && arg6 == segdl && str(arg7.str) == str("")
+//@   ensures-local entCid != cid.Undef && old(s.expSyncClosed) ==> result != nil && count("wg.add:expSyncWG") == 0 && count("call:handle") == 0
+//@   ensures-local entCid != cid.Undef && !old(s.expSyncClosed) ==> count("wg.add:expSyncWG") == 1 && count("wg.done:expSyncWG") == 1
+//@   ensures-local entCid == cid.Undef ==> result == nil && count("call:handle") == 0 && count("wg.add:expSyncWG") == 0
+//@   ensures-local count("call:sendSyncFinishedEvent") == 0
+
+// The idle-handler cleaner stops when the subscriber closes, and only touches the handler table under its mutex.
+//@ func (*Subscriber).idleHandlerCleaner
+//@   property C15
+//@   requires subOK(s) && !held(s.handlersMutex)
+//@   shutdown closing
+//@   loop 1: invariant subOK(s) && !held(s.handlersMutex) && t != nil
+//@   loop 2: invariant subOK(s) && held(s.handlersMutex) && t != nil
+
+//@ func (*Subscriber).Announce
+//@   property C15
+//@   requires subOK(s) && ctx != nil && (s.receiver != nil ==> !held(s.receiver.announceMutex))
+
+//@ func (*Subscriber).RemoveHandler
+//@   property C15
+//@   requires subOK(s) && !held(s.handlersMutex)
+//@   ensures !has(s.handlers, peerID)
